@@ -245,8 +245,9 @@ def plain(circ):
 
 
 def build_events(level):
-    """level: 'full' (thorough), 'medium' (quick depth 2)."""
+    """level: 'full' (depth 1), 'large' (thorough depth 2), 'medium' (quick depth 2)."""
     ev = []
+    large = level == "large"
     full = level == "full"
     single = list(range(len(LETTERS)))
     idx1 = IDX if full else ["0", "1", "len+3"]
@@ -257,8 +258,10 @@ def build_events(level):
             for ix in idx1:
                 ev.append(("insert", ix, si, (li,)))
     # ordered pairs of operation letters (forced conflicts inside the inserted list)
-    pair_letters = list(range(NOPS)) if full else [0, 3, 5, 8, 9]
-    pair_idx = IDX if full else ["1"]
+    pair_letters = list(range(NOPS)) if full else (CORE_OPS if large else [0, 3, 5, 8, 9])
+    pair_idx = IDX if full else (["0", "1", "len"] if large else ["1"])
+    if large:
+        idx1 = IDX
     for x, y in itertools.product(pair_letters, repeat=2):
         for si in range(5):
             if full:
@@ -1168,6 +1171,8 @@ def stages(tier, seed):
             make_stage("bfs_core_alphabet_depth3", cev, 3, inits[:3]),
         ]
     return extra + [
-        make_stage("bfs_full_alphabet_depth2", build_events("full"), 2, inits),
-        make_stage("bfs_core_alphabet_depth4", cev, 4, inits),
+        make_stage("bfs_full_alphabet_depth1", build_events("full"), 1, inits),
+        make_stage("bfs_large_alphabet_depth2", build_events("large"), 2, inits[:3]),
+        make_stage("bfs_medium_alphabet_depth2_other_inits", build_events("medium"), 2, inits[3:]),
+        make_stage("bfs_core_alphabet_depth4", cev, 4, inits[:3]),
     ]
